@@ -11,8 +11,8 @@ INFO = {
                "condition: a stage that drops the decision makes jawk read an endless input forever. Input is pulled "
                "one byte at a time through io::Bytes (no whole-file or block read), so what is read past the last "
                "needed value is bounded by the reader's look-ahead.",
-    "not_decided": "The limiter's counter arithmetic (that Break is answered exactly when T rows were emitted) and "
-                   "the number of bytes read past the last value (one byte of look-ahead by construction of Reader).",
+    "not_decided": "The limiter's Break timing beyond the explored parameters (skip, take <= 3; streams of 9 rows) and "
+                   "the exact number of bytes read past the last value (one byte of look-ahead by construction of Reader).",
     "trusted": ["sa/tables/pipeline_order.toml (which stage classes may precede the limiter)"],
 }
 
@@ -135,6 +135,8 @@ def run(ctx, rep):
 
 
     # "a bounded number of bytes past the value": input is pulled one byte at a time, never a whole file / block
+    from rules import pipeline_rules as _P
+    _P.limiter_machine(rep, lib, rid="C14-LIMITER-MACHINE")
     from rules import c16
     c16.raw_io(rep, lib)
     c16.eof_distinct(rep, lib)
